@@ -366,6 +366,26 @@ impl<'r> Grammar<'r> {
                 self.t(":=");
                 self.expr(depth, 0);
             }
+            2 | 16 if self.rng.chance(1, 5) => {
+                // Write/Str with width and precision specifiers
+                let f = self.rng.pick_str(&["Write", "WriteLn", "Str"]).to_string();
+                self.tm(&f, m);
+                self.t("(");
+                let i = self.ident();
+                self.t(&i);
+                self.t(":");
+                self.t("8");
+                if self.rng.chance(1, 2) {
+                    self.t(":");
+                    self.t("2");
+                }
+                if f == "Str" || self.rng.chance(1, 3) {
+                    self.t(",");
+                    let j = self.ident();
+                    self.t(&j);
+                }
+                self.t(")");
+            }
             2 | 16 => {
                 let i = self.ident();
                 self.tm(&i, m);
@@ -456,7 +476,10 @@ impl<'r> Grammar<'r> {
                         self.t("9");
                     }
                     self.t(":");
-                    self.case_body(depth + 1);
+                    if !self.rng.chance(1, 4) {
+                        // (one arm in four has the empty statement as its body)
+                        self.case_body(depth + 1);
+                    }
                     self.t(";");
                 }
                 if self.rng.chance(1, 2) {
@@ -640,7 +663,21 @@ impl<'r> Grammar<'r> {
         for _ in 0..n {
             let i = self.ident();
             self.tm(&i, Mark::Start(depth + 1));
-            if kw == "const" {
+            if kw == "const" && self.rng.chance(1, 5) {
+                // typed record constant
+                self.t(":");
+                self.t("TPoint");
+                self.t("=");
+                self.t("(");
+                self.t("X");
+                self.t(":");
+                self.t("0");
+                self.t(";");
+                self.t("Y");
+                self.t(":");
+                self.t("10");
+                self.t(")");
+            } else if kw == "const" {
                 if self.rng.chance(1, 2) {
                     self.t(":");
                     let ty = self.rng.pick(TYPES).to_string();
@@ -751,7 +788,60 @@ impl<'r> Grammar<'r> {
         }
     }
 
+    /// a routine declaration without a body: forward declaration or import
+    fn routine_no_body(&mut self, depth: u16) {
+        let is_fn = self.routine_header(depth, false);
+        let _ = is_fn;
+        match self.rng.below(6) {
+            0 => {
+                self.k("forward");
+                self.t(";");
+            }
+            1 => {
+                self.k("stdcall");
+                self.t(";");
+                self.k("external");
+                self.t("'kernel32.dll'");
+                self.k("name");
+                self.t("'GetTickCount'");
+                self.t(";");
+            }
+            2 => {
+                self.k("external");
+                self.t("'lib.dll'");
+                self.k("index");
+                self.t("5");
+                self.t(";");
+            }
+            3 => {
+                self.k("cdecl");
+                self.t(";");
+                self.k("external");
+                self.t("'lib.so'");
+                self.k("name");
+                self.t("'x'");
+                self.k("delayed");
+                self.t(";");
+            }
+            4 => {
+                self.k("external");
+                self.t(";");
+            }
+            _ => {
+                self.k("overload");
+                self.t(";");
+                self.k("external");
+                self.t("'lib.dll'");
+                self.t(";");
+            }
+        }
+    }
+
     fn routine_impl(&mut self, depth: u16) {
+        if depth == 0 && self.rng.chance(1, 8) {
+            self.routine_no_body(depth);
+            return;
+        }
         let q = self.rng.chance(1, 2);
         self.routine_header(depth, q);
         if self.rng.chance(1, 3) {
@@ -911,6 +1001,8 @@ pub struct LayoutOpts {
     pub crlf: bool,
     pub tabs: bool,
     pub tight: bool,
+    /// inserted comments are always `// ...` comments at the end of a line (keeps the marked tokens first on their lines)
+    pub line_comments_only: bool,
 }
 
 fn needs_sep(a: &str, b: &str) -> bool {
@@ -955,7 +1047,16 @@ pub fn render_layout(p: &Program, rng: &mut Rng, o: LayoutOpts) -> String {
     let mut s = String::new();
     let mut prev: Option<&str> = None;
     let mut open_stack: Vec<(u16, bool)> = vec![];
-    for t in p.toks.iter() {
+    for (ti, t) in p.toks.iter().enumerate() {
+        // positions at which a `//` comment at the end of the line leaves every statement where it is: after the end of
+        // a statement, after a block/branch opener, after the colon of a label (`line_comments_only` mode)
+        let safe_comment_pos = ti >= 1 && !matches!(t.mark, Mark::BodyBegin(_)) && {
+            let pt = p.toks[ti - 1].text.to_ascii_lowercase();
+            matches!(pt.as_str(), "begin" | "then" | "do" | "else" | "of" | "try" | "repeat" | "except" | "finally")
+                // after `;` only where a new marked statement/declaration follows (not inside a routine header's directives)
+                || (pt == ";" && matches!(t.mark, Mark::Start(_) | Mark::Closer(_)))
+                || (pt == ":" && ti >= 2 && matches!(p.toks[ti - 2].mark, Mark::Start(_)))
+        };
         // conditional directives wrapping whole statements: opened before a Start(d) token, closed (or
         // switched to an {$else} branch that wraps the next statement) before the next token that ends the
         // statement: a Start(x <= d) or a Closer(x < d)
@@ -1036,8 +1137,8 @@ pub fn render_layout(p: &Program, rng: &mut Rng, o: LayoutOpts) -> String {
                 gap = format!("{}{}", nl, " ".repeat(rng.below(5)));
             }
             s.push_str(&gap);
-            if o.comments && rng.chance(1, 14) {
-                match rng.below(6) {
+            if o.comments && (if o.line_comments_only { safe_comment_pos && rng.chance(1, 3) } else { rng.chance(1, 14) }) {
+                match if o.line_comments_only { 2 } else { rng.below(6) } {
                     0 | 1 => {
                         s.push_str(rng.pick_str(COMMENTS_INLINE));
                         s.push(' ');
